@@ -28,6 +28,7 @@ func init() { Registry["C12"] = C12 }
 type c12Act struct {
 	Op, VM, Kind, Name, Via string
 	Ok                      bool
+	Dev                     *bool // probe-shared: the verdict under the deviation ast-level-resolution-cache
 }
 
 type c12Table map[string]map[string][]string // vm -> kind -> names
@@ -139,7 +140,16 @@ func c12IncludeDir() string {
 func newC12World(names []string) *c12World {
 	vm, p := rt.NewVM()
 	vm.SetThrowControl(func(acl data.Control) { panic(fmt.Sprintf("uncaught: %s", acl.AsString())) })
-	return &c12World{base: vm, p: p, temps: map[string]data.VM{}, names: names}
+	w := &c12World{base: vm, p: p, temps: map[string]data.VM{}, names: names}
+	// helpers parsed ONCE on the base VM: every VM that runs them shares their syntax trees
+	var sb strings.Builder
+	for _, n := range names {
+		fmt.Fprintf(&sb, "function c12_use_class_%s() { $o = new %s(); return 'found'; }\nfunction c12_use_func_%s() { $r = %s(); return 'found'; }\n", n, n, n, n)
+	}
+	if _, e := w.run("base", sb.String(), "/verif-virtual/c12/shared-helpers.zy"); e != "" {
+		panic("c12 helpers: " + e)
+	}
+	return w
 }
 
 func c12Source(kind, name, tag string) string {
@@ -206,6 +216,10 @@ func (w *c12World) apply(a c12Act) (ok bool, detail string) {
 		}
 		delete(w.temps, a.VM)
 		return true, ""
+	case "probe-shared":
+		// code parsed once on the base VM (helpers defined when the world was created), run on VM a.VM
+		out, e := w.run(a.VM, fmt.Sprintf("echo c12_use_%s_%s();", a.Kind, a.Name), fmt.Sprintf("/verif-virtual/c12/shared%d.zy", w.seq))
+		return e == "" && strings.HasSuffix(out, "found"), out + " " + e
 	case "probe":
 		// use the name on that VM; a name that does not resolve goes through the autoload probe and fails
 		var src string
@@ -383,7 +397,7 @@ func C12(c *Ctx) *kf.Report {
 	maxDefs := c.Pick(3, 4)
 	depth := c.Pick(4, 5)
 	res := runTLC(rep, tlc.Run{SpecDir: c.SpecDir(), Module: "TempVM", Cfg: "TempVM.cfg",
-		Consts: map[string]string{"NAMES": `{"A","B"}`, "TEMPS": `{"t1","t2"}`, "MAXDEFS": fmt.Sprint(maxDefs), "HIST": "FALSE", "WALKLEN": "0", "PROBES": `{"class"}`, "VIAS": `{"inline"}`, "EVALTEMP": evalTemp}})
+		Consts: map[string]string{"NAMES": `{"A","B"}`, "TEMPS": `{"t1","t2"}`, "MAXDEFS": fmt.Sprint(maxDefs), "HIST": "FALSE", "WALKLEN": "0", "PROBES": `{"class"}`, "VIAS": `{"inline"}`, "SHARED": "FALSE", "EVALTEMP": evalTemp}})
 	if res == nil {
 		return rep
 	}
@@ -436,6 +450,12 @@ func C12(c *Ctx) *kf.Report {
 		for i, s := range sts {
 			ok, detail := w.apply(s.act)
 			steps++
+			if ok != s.act.Ok && s.act.Op == "probe-shared" && s.act.Dev != nil && ok == *s.act.Dev {
+				// exactly what the deviation layer predicts: the shared syntax tree remembers a resolution made on another VM
+				rep.Add(kf.Mismatch{ID: "C12/deviation=ast-level-resolution-cache/kind=" + s.act.Kind, Expected: fmt.Sprintf("step %d %s on %s resolves %s: %v", i+1, s.act.Op, s.act.VM, s.act.Name, s.act.Ok),
+					Observed: fmt.Sprintf("resolved=%v %s", ok, detail), ObsKey: "predicted-by-deviation", Input: sts})
+				return
+			}
 			if ok != s.act.Ok {
 				rep.Add(kf.Mismatch{ID: id, Expected: fmt.Sprintf("step %d %v ok=%v", i+1, s.act, s.act.Ok), Observed: fmt.Sprintf("ok=%v %s", ok, detail),
 					ObsKey: fmt.Sprintf("step%d:ok=%v", i+1, ok), Input: sts})
@@ -492,7 +512,7 @@ func C12(c *Ctx) *kf.Report {
 	})
 	// the same graph for definitions that arrive through an included file or through eval() (one name, two definitions)
 	if res2 := runTLC(rep, tlc.Run{SpecDir: c.SpecDir(), Module: "TempVM", Cfg: "TempVM.cfg",
-		Consts: map[string]string{"NAMES": `{"A"}`, "TEMPS": `{"t1","t2"}`, "MAXDEFS": "2", "HIST": "FALSE", "WALKLEN": "0", "PROBES": "{}", "VIAS": `{"include", "eval"}`, "EVALTEMP": evalTemp}}); res2 != nil {
+		Consts: map[string]string{"NAMES": `{"A"}`, "TEMPS": `{"t1","t2"}`, "MAXDEFS": "2", "HIST": "FALSE", "WALKLEN": "0", "PROBES": "{}", "VIAS": `{"include", "eval"}`, "SHARED": "TRUE", "EVALTEMP": evalTemp}}); res2 != nil {
 		addTLC(rep, res2)
 		if res2.Violated != "" {
 			rep.Infraf("spec TempVM (include / eval): %s violated", res2.Violated)
@@ -522,7 +542,7 @@ func C12(c *Ctx) *kf.Report {
 	// seeded long walks from TLC -simulate with a history variable
 	walkLen := 40
 	sim := runTLC(rep, tlc.Run{SpecDir: c.SpecDir(), Module: "TempVM", Cfg: "TempVM.cfg", Workers: 1,
-		Consts:   map[string]string{"NAMES": `{"A","B","C","D","E","F","G","H"}`, "TEMPS": `{"t1","t2","t3","t4"}`, "MAXDEFS": "1000", "HIST": "TRUE", "WALKLEN": fmt.Sprint(walkLen), "PROBES": `{"class", "iface", "func"}`, "VIAS": `{"inline", "include", "eval"}`, "EVALTEMP": evalTemp},
+		Consts:   map[string]string{"NAMES": `{"A","B","C","D","E","F","G","H"}`, "TEMPS": `{"t1","t2","t3","t4"}`, "MAXDEFS": "1000", "HIST": "TRUE", "WALKLEN": fmt.Sprint(walkLen), "PROBES": `{"class", "iface", "func"}`, "VIAS": `{"inline", "include", "eval"}`, "SHARED": "TRUE", "EVALTEMP": evalTemp},
 		Simulate: fmt.Sprintf("num=%d", c.Pick(12, 150)), Depth: walkLen + 3, Seed: c.Seed, Timeout: 0})
 	if sim != nil {
 		if sim.Violated != "" {
